@@ -644,8 +644,10 @@ VCLAUSE(numerics, 60, 12000, 250000, "method name differs from a valid one by on
 		for(auto v : valid1d)
 			if(m == v)
 				ok = true;
-		VLOG(c, "Integrate(f,0,1,\"" << m << "\")");
-		REQUEST(c, "Integrate(method)", ok, g_sink = Integrate(f1, 0.0, 1.0, m));
+		// also with equal limits: the integral is zero for every known method, and an unknown method is still unknown
+		double hi1 = s.chance(0.25) ? 0.0 : 1.0;
+		VLOG(c, "Integrate(f,0," << hi1 << ",\"" << m << "\")");
+		REQUEST(c, "Integrate(method)", ok, g_sink = Integrate(f1, 0.0, hi1, m));
 	}
 	else if(which == 1)
 	{
@@ -665,10 +667,16 @@ VCLAUSE(numerics, 60, 12000, 250000, "method name differs from a valid one by on
 		auto f2 = [](double x, double y) { return 1.0 + x * y; };
 		auto f3 = [](double x, double y, double z) { return 1.0 + x * y * z; };
 		int par = (m == "Monte-Carlo" || m == "Vegas" || m == "Miser") ? 2000 : ((m == "Gauss-Legendre_2" || m == "Gauss-Kronrod") ? 4 : 0);
+		// one axis may be degenerate (equal limits): still zero for a known method, still a diagnostic for an unknown one
+		int deg	   = s.chance(0.3) ? (int) s.range(0, three ? 2 : 1) : -1;
+		bool is_mc = (m == "Monte-Carlo" || m == "Vegas" || m == "Miser");
+		if(is_mc)
+			deg = -1;	// (a Monte Carlo box of zero volume is not probed here)
+		double x2 = deg == 0 ? 0.0 : 1.0, y2 = deg == 1 ? 0.0 : 0.5, z2 = deg == 2 ? 0.0 : 0.25;
 		if(three)
-			REQUEST(c, "Integrate_3D(method)", ok, g_sink = Integrate_3D(f3, 0.0, 1.0, 0.0, 0.5, 0.0, 0.25, m, par));
+			REQUEST(c, "Integrate_3D(method)", ok, g_sink = Integrate_3D(f3, 0.0, x2, 0.0, y2, 0.0, z2, m, par));
 		else
-			REQUEST(c, "Integrate_2D(method)", ok, g_sink = Integrate_2D(f2, 0.0, 1.0, 0.0, 0.5, m, par));
+			REQUEST(c, "Integrate_2D(method)", ok, g_sink = Integrate_2D(f2, 0.0, x2, 0.0, y2, m, par));
 	}
 	else if(which == 2)
 	{
